@@ -17,6 +17,7 @@ import (
 	"os"
 	"os/exec"
 	"path/filepath"
+	"regexp"
 	"runtime"
 	"runtime/debug"
 	"sort"
@@ -25,7 +26,7 @@ import (
 	"syscall"
 	"time"
 
-	_ "kvqlverif/checks"
+	"kvqlverif/checks"
 	"kvqlverif/rt"
 )
 
@@ -43,6 +44,8 @@ func main() {
 		os.Exit(runReplay(os.Args[2:]))
 	case "witness":
 		os.Exit(runWitness(os.Args[2:]))
+	case "fuzzone":
+		os.Exit(runFuzzOne(os.Args[2:]))
 	case "list":
 		for _, id := range rt.IDs() {
 			fmt.Println(id)
@@ -506,6 +509,12 @@ func runCoordinator(args []string) int {
 			inconclusive = append(inconclusive, fmt.Sprintf("%d race report(s) involve harness code only (see %s)", harness, raceDir))
 		}
 	}
+	// coverage-guided stage of C06 (run.sh ran go's fuzzing engine and left its log and crashers)
+	if fz := os.Getenv("VERIF_FUZZ_DIR"); fz != "" && *prop == "C06" {
+		viol, inc := collectFuzz(self, fz, *tier, seed, total)
+		procFindings = append(procFindings, viol...)
+		inconclusive = append(inconclusive, inc...)
+	}
 	total.Findings = append(total.Findings, procFindings...)
 	for _, f := range procFindings {
 		total.ClusterCount[f.Oracle+"|"+f.Cluster]++
@@ -788,6 +797,20 @@ func runReplay(args []string) int {
 	}
 	debug.SetMaxStack(256 << 20)
 	fmt.Printf("REPLAY property=%s tier=%s seed=%d case=%d recorded oracle=%s\n", f.Prop, f.Tier, f.Seed, f.Case, f.Oracle)
+	if fi, ok := f.Detail["fuzz_input"].(map[string]any); ok {
+		q, _ := fi["query"].(string)
+		a, _ := fi["store_sel"].(float64)
+		b, _ := fi["mode_sel"].(float64)
+		fmt.Printf("input found by the coverage-guided stage: query %q store_sel %d mode_sel %d\n", q, int(a), int(b))
+		v, st := checks.C06FuzzOne(q, byte(a), byte(b))
+		fmt.Printf("status=%s verdict=%q\n", st, v)
+		if v != "" {
+			fmt.Printf("VIOLATION property=%s replay=%s\n", f.Prop, *file)
+			return 1
+		}
+		fmt.Println("REPLAY: the recorded input no longer violates the property")
+		return 0
+	}
 	if f.Case < 0 {
 		fmt.Println("this finding was made by the coordinator from the race detector's log (it is not tied to one case); the recorded report:")
 		b, _ := json.MarshalIndent(f.Detail, "", " ")
@@ -851,4 +874,183 @@ func writeEvidence(chk rt.Check, prop, tier string, seed uint64, total *rt.Rec, 
 	b, _ := json.MarshalIndent(ev, "", " ")
 	os.MkdirAll(evidenceDir(), 0o755)
 	os.WriteFile(filepath.Join(evidenceDir(), prop+".json"), b, 0o644)
+}
+
+// ---------------------------------------------------------------- C06 coverage-guided stage
+
+// parseCorpusFile reads a "go test fuzz v1" corpus entry of FuzzStatement(string, byte, byte).
+func parseCorpusFile(path string) (q string, a, b byte, err error) {
+	data, err := os.ReadFile(path)
+	if err != nil {
+		return
+	}
+	lines := strings.Split(strings.TrimSpace(string(data)), "\n")
+	if len(lines) != 4 || !strings.HasPrefix(lines[0], "go test fuzz v1") {
+		return "", 0, 0, fmt.Errorf("unexpected corpus file format")
+	}
+	arg := func(l, typ string) (string, error) {
+		l = strings.TrimSpace(l)
+		if !strings.HasPrefix(l, typ+"(") || !strings.HasSuffix(l, ")") {
+			return "", fmt.Errorf("unexpected corpus line %q", l)
+		}
+		return l[len(typ)+1 : len(l)-1], nil
+	}
+	qs, err := arg(lines[1], "string")
+	if err != nil {
+		return
+	}
+	if q, err = strconv.Unquote(qs); err != nil {
+		return
+	}
+	bs := [2]byte{}
+	for i := 0; i < 2; i++ {
+		var t string
+		if t, err = arg(lines[2+i], "byte"); err != nil {
+			return
+		}
+		var r rune
+		if r, _, _, err = strconv.UnquoteChar(strings.Trim(t, "'"), '\''); err != nil {
+			return
+		}
+		bs[i] = byte(r)
+	}
+	return q, bs[0], bs[1], nil
+}
+
+func runFuzzOne(args []string) int {
+	fs := flag.NewFlagSet("fuzzone", flag.ExitOnError)
+	file := fs.String("file", "", "")
+	fs.Parse(args)
+	q, a, b, err := parseCorpusFile(*file)
+	if err != nil {
+		fmt.Println("FUZZONE unreadable:", err)
+		return 3
+	}
+	debug.SetMaxStack(256 << 20)
+	v, st := checks.C06FuzzOne(q, a, b)
+	fmt.Printf("FUZZONE status=%s verdict=%s\n", st, v)
+	if v != "" {
+		return 1
+	}
+	return 0
+}
+
+var fuzzSeedFail = regexp.MustCompile(`failure while testing seed corpus entry: FuzzStatement/seed#(\d+)`)
+var fuzzProgress = regexp.MustCompile(`execs: (\d+) .*new interesting: (\d+) \(total: (\d+)\)`)
+
+// collectFuzz turns the fuzzing engine's output into counters and findings. Every crasher the
+// engine wrote is re-run alone in a fresh process on the tree under test; only a confirmed one
+// counts as a violation (an unconfirmed one makes the run inconclusive).
+func collectFuzz(self, dir, tier string, seed uint64, total *rt.Rec) (viol []rt.Finding, inconclusive []string) {
+	logb, _ := os.ReadFile(filepath.Join(dir, "log"))
+	exitb, _ := os.ReadFile(filepath.Join(dir, "exit"))
+	exit := strings.TrimSpace(string(exitb))
+	var execs, interesting, corpus int64
+	for _, m := range fuzzProgress.FindAllStringSubmatch(string(logb), -1) {
+		execs, _ = strconv.ParseInt(m[1], 10, 64)
+		interesting, _ = strconv.ParseInt(m[2], 10, 64)
+		corpus, _ = strconv.ParseInt(m[3], 10, 64)
+	}
+	total.Counters["fuzz_execs"] += execs
+	total.Counters["fuzz_new_coverage_inputs"] += interesting
+	total.Counters["fuzz_corpus_entries"] += corpus
+	total.Counters["evaluations"] += execs
+	// a failing seed is reported by index only: write it out as a corpus entry so that it is
+	// confirmed and recorded like an engine-found crasher
+	for _, m := range fuzzSeedFail.FindAllStringSubmatch(string(logb), -1) {
+		idx, _ := strconv.Atoi(m[1])
+		n := 300
+		if v, err := strconv.Atoi(os.Getenv("VERIF_FUZZ_SEEDS")); err == nil {
+			n = v
+		}
+		seeds := checks.C06FuzzSeeds(n)
+		if idx < len(seeds) {
+			cd := filepath.Join(dir, "testdata", "fuzz", "FuzzStatement")
+			os.MkdirAll(cd, 0o755)
+			os.WriteFile(filepath.Join(cd, fmt.Sprintf("seed-%d", idx)), []byte(fmt.Sprintf("go test fuzz v1\nstring(%q)\nbyte(%q)\nbyte(%q)\n", seeds[idx], rune(byte(idx)), rune(byte(idx*7)))), 0o644)
+		}
+	}
+	crashers, _ := filepath.Glob(filepath.Join(dir, "testdata", "fuzz", "FuzzStatement", "*"))
+	total.Counters["fuzz_crashers_written"] += int64(len(crashers))
+	switch {
+	case exit == "exit=build-failed":
+		inconclusive = append(inconclusive, "coverage-guided stage: the fuzz binary did not build (see "+filepath.Join(dir, "build.log")+")")
+	case exit == "exit=124" || exit == "exit=131":
+		inconclusive = append(inconclusive, "coverage-guided stage: wall-clock watchdog fired before the execution budget was used up")
+	case exit != "exit=0" && len(crashers) == 0:
+		inconclusive = append(inconclusive, "coverage-guided stage ended with "+exit+" without writing a crasher (see "+filepath.Join(dir, "log")+")")
+	}
+	for _, cf := range crashers {
+		q, a, b, err := parseCorpusFile(cf)
+		if err != nil {
+			inconclusive = append(inconclusive, "coverage-guided stage: unreadable crasher "+cf)
+			continue
+		}
+		cmd := exec.Command(self, "fuzzone", "-file", cf)
+		cmd.Env = append(os.Environ(), "GOTRACEBACK=all")
+		outf, _ := os.Create(cf + ".confirm")
+		cmd.Stdout, cmd.Stderr = outf, outf
+		cmd.Start()
+		done := make(chan error, 1)
+		go func() { done <- cmd.Wait() }()
+		detail := map[string]any{"fuzz_input": map[string]any{"query": q, "store_sel": int(a), "mode_sel": int(b)}, "found_by": "go native fuzzing (coverage-guided stage)"}
+		select {
+		case err := <-done:
+			outf.Close()
+			tail := tailFile(cf+".confirm", 60)
+			code := 0
+			if ee, ok := err.(*exec.ExitError); ok {
+				code = ee.ExitCode()
+			} else if err != nil {
+				code = -1
+			}
+			detail["confirmation_run"] = tail
+			switch code {
+			case 0:
+				inconclusive = append(inconclusive, fmt.Sprintf("coverage-guided stage: crasher %s did not reproduce alone", filepath.Base(cf)))
+			case 1:
+				verdict := ""
+				for _, l := range strings.Split(tail, "\n") {
+					if i := strings.Index(l, "verdict="); i >= 0 {
+						verdict = l[i+8:]
+					}
+				}
+				viol = append(viol, rt.Finding{Prop: "C06", Oracle: "fuzz-confirmed", Cluster: fuzzCluster(verdict), Case: -2, Tier: tier, Seed: seed, Detail: detail})
+			default:
+				viol = append(viol, rt.Finding{Prop: "C06", Oracle: "process-died", Cluster: classifyDeath(tail), Case: -2, Tier: tier, Seed: seed, Detail: detail})
+			}
+		case <-time.After(120 * time.Second):
+			cmd.Process.Signal(syscall.SIGQUIT)
+			select {
+			case <-done:
+			case <-time.After(10 * time.Second):
+				cmd.Process.Kill()
+				<-done
+			}
+			outf.Close()
+			detail["goroutines"] = tailFile(cf+".confirm", 80)
+			viol = append(viol, rt.Finding{Prop: "C06", Oracle: "hang-confirmed", Cluster: "fuzz input did not end alone within 120 s", Case: -2, Tier: tier, Seed: seed, Detail: detail})
+		}
+	}
+	return
+}
+
+// fuzzCluster keeps the stable part of a verdict (kind of failure and frame, not the data).
+func fuzzCluster(v string) string {
+	if i := strings.Index(v, " (store "); i >= 0 {
+		v = v[:i]
+	}
+	if i := strings.Index(v, ": "); i >= 0 && strings.HasPrefix(v, "panic") {
+		head, rest := v[:i], v[i+2:]
+		for _, k := range []string{"slice bounds out of range", "index out of range", "interface conversion", "nil pointer", "nil map"} {
+			if strings.Contains(rest, k) {
+				return head + ": " + k
+			}
+		}
+		if len(rest) > 60 {
+			rest = rest[:60]
+		}
+		return head + ": " + rest
+	}
+	return v
 }
